@@ -749,15 +749,25 @@ func (c *ChannelWriter) dropDatabase(ctx context.Context, msgBase *commonpb.MsgB
 
 func (c *ChannelWriter) alterDatabase(ctx context.Context, msgBase *commonpb.MsgBase, msg msgstream.TsMsg) error {
 	alterDatabaseMsg := msg.(*msgstream.AlterDatabaseMsg)
+	databaseName := alterDatabaseMsg.GetDbName()
+	if skip, err := c.WaitObjReady(ctx, databaseName, "", "", alterDatabaseMsg.EndTs()); err != nil {
+		return err
+	} else if skip {
+		log.Info("database has been dropped", zap.String("database", databaseName), zap.String("msg", util.Base64Msg(msg)))
+		return nil
+	}
 	UpdateMsgBase(alterDatabaseMsg.Base, msgBase)
-	dbName, _ := c.mapDBAndCollectionName(alterDatabaseMsg.GetDbName(), "")
+	dbName, _ := c.mapDBAndCollectionName(databaseName, "")
 	alterDatabaseMsg.AlterDatabaseRequest.DbName = dbName
 	err := c.dataHandler.AlterDatabase(ctx, &api.AlterDatabaseParam{
 		AlterDatabaseRequest: alterDatabaseMsg.AlterDatabaseRequest,
 	})
 	if err != nil {
 		log.Warn("failed to alter database", zap.Any("msg", alterDatabaseMsg), zap.Error(err))
-		return err
+		skip, _ := c.WaitObjReady(ctx, databaseName, "", "", alterDatabaseMsg.EndTs())
+		if !skip {
+			return err
+		}
 	}
 	return nil
 }
